@@ -47,6 +47,22 @@ def main():
                         iv["addr"] -= base[iv["sect"]]
                 c, _ = irdump.canon(d)
                 out = {"err": err, "canon": c}
+                if req.get("twice") and not req.get("_again"):
+                    # the same rewrite once more in this very process: nothing may be carried over
+                    req2 = dict(req, _again=True)
+                    B2, rec2, err2 = emodify.run_case(req2["case"], record=False)
+                    d2 = irdump.dump_ir(B2.m, irdump.IdMap())
+                    d2["order"], d2["fbb"], d2["next"] = [], [], 0
+                    base2 = {}
+                    for iv in d2["intervals"]:
+                        if iv["addr"] is not None:
+                            base2[iv["sect"]] = min(base2.get(iv["sect"], iv["addr"]), iv["addr"])
+                    for iv in d2["intervals"]:
+                        if iv["addr"] is not None:
+                            iv["addr"] -= base2[iv["sect"]]
+                    c2, _ = irdump.canon(d2)
+                    if (err2, c2) != (err, c):
+                        out["again_differs"] = irdump.diff_paths(c, c2)[:3] if err2 == err else [err, err2]
             else:
                 import props.c10 as c10
 
